@@ -74,7 +74,7 @@ CHECKS["C15"] = dict(
     design="DESIGN.md S.2 and 3 C15, Appendix B")
 
 CHECKS["C01"] = dict(
-    technique="Coq proof that the argument factorisation (model Fact.v of ffcx/ir/analysis/factorization.py, tied by exact correspondence on every integrand of the sampled forms) preserves the value of every multilinear integrand in every commutative ring with conjugation; Coq proof of the layout facts (row-major flattening = printed stride expression, bijective onto [0,prod); blocked layout) + independent oracle (UFL point evaluation of the original integrand, textbook push-forwards, basix tabulation) against every cell kernel of the corpus; per exported kernel the theorems of C05/C07/C08/C16/C17/C19",
+    technique="Coq proof that the argument factorisation (model Fact.v of ffcx/ir/analysis/factorization.py, tied by exact correspondence on every integrand of the sampled forms) preserves the value of every multilinear integrand in every commutative ring with conjugation; Coq proof that the classification and reduction of element tables (model Tab.v over Q; predicates regenerated by tr_tab and pinned; real predicates vs model on generated dyadic tables) leaves the value read by table_access within the table tolerances, inside the reduced extent; Coq proof of the layout facts (row-major flattening = printed stride expression, bijective onto [0,prod); blocked layout) + independent oracle (UFL point evaluation of the original integrand, textbook push-forwards, basix tabulation) against every cell kernel of the corpus; per exported kernel the theorems of C05/C07/C08/C16/C17/C19",
     text="The end-to-end statement (kernel = quadrature sum of the form) is decided per sampled form by differential execution against an independent oracle (agreement to ~1e-15 relative): NOT a theorem. Proved for all inputs are the soundness of the argument factorisation (integrand = sum over argkeys of factor times arguments, for all multilinear integrands; multilinearity is checked on every exported integrand) and the index-layout lemmas; proved per exported kernel are purity/accumulation, bounds, packing, C text = AST. Partial: UFL lowering, basix, table compression and the partition into loops are not modelled.",
     note="oracle (harness/oracle.py) trusted as specification; forms sampled (pinned + seeded random, explicit quadrature degrees); Coq kernel for Flatten.v, Fact.v; factcorr.py exporter",
     design="DESIGN.md S.2 and 3 C01")
